@@ -408,6 +408,48 @@ pub fn run(ctx: &Ctx) -> Report
         fixed.push(Case::Text { s: s.to_string() });
     }
     rep.absorb(drive::drive_list(ctx, fixed, |c, st| test_case(c, st)));
+    // the built binary on the real file system: `rv hash <path>`
+    {
+        let n = ctx.tier.pick(24usize, 300);
+        let dir = std::env::temp_dir().join(format!("rv-hash-{}", std::process::id()));
+        let _ = std::fs::remove_dir_all(&dir);
+        let mut st = Stats::default();
+        if std::fs::create_dir_all(dir.join("sub/deeper")).is_ok()
+        {
+            let exe = std::env::current_exe().unwrap();
+            let mut r = XorShift::new(ctx.seed ^ 0x15);
+            for i in 0..n
+            {
+                let len = match i % 4 { 0 => r.below(600), 1 => 255 + r.below(4), 2 => r.below(70000), _ => 256 * (1 + r.below(8)) } as usize;
+                let data = fill_bytes(len, (i % 3) as u8, r.next());
+                let rel = match i % 3 { 0 => format!("f{}", i), 1 => format!("sub/f{}", i), _ => format!("sub/deeper/f{}", i) };
+                if std::fs::write(dir.join(&rel), &data).is_err() { continue; }
+                st.evaluations += 1;
+                st.count("realfs_hash_calls", 1);
+                let out = std::process::Command::new(&exe).current_dir(&dir).arg("hash").arg(&rel).output();
+                let want = b62::encode(&sha256(&data));
+                match out
+                {
+                    Ok(o) =>
+                    {
+                        let got = String::from_utf8_lossy(&o.stdout).trim().to_string();
+                        if got != want
+                        {
+                            rep.failures.push(drive::Failure { reason: format!("`hash {}` on a real file of {} bytes printed {:?}, SHA-256 text form is {}", rel, len, got, want),
+                                case: json!(Case::File { len: len as u32, fill: (i % 3) as u8, seed: 0, chunks: vec![], depth: (i % 3) as u8 }) });
+                        }
+                        else if len % 256 != 0
+                        {
+                            st.nontrivial(drive::key_of(&(rel.clone(), len)));
+                        }
+                    }
+                    Err(e) => eprintln!("cannot run {:?}: {}", exe, e),
+                }
+            }
+            let _ = std::fs::remove_dir_all(&dir);
+        }
+        rep.stats.merge(st);
+    }
     let cases = ctx.tier.pick(60000u32, 1200000);
     rep.absorb(drive::drive(ctx, 15, cases, strategy, test_case));
     rep
